@@ -108,6 +108,12 @@ Lemma P_scoped : wscoped P_prog P_n = true.
 Proof. vm_compute. reflexivity. Qed.
 Lemma P_D1_scoped : wscoped P_D1 (2 * P_n) = true.
 Proof. vm_compute. reflexivity. Qed.
+(* the limit theorem instantiated on this program: all hypotheses decided by computation (per temperature) *)
+Definition P_vobl (st : list (Z * Z)) : bool :=
+  match st with T :: _ :: cs => virial_obligations P_prog T (1, -60)%Z cs PREC | _ => false end.
+Eval vm_compute in ("VOBL", "P", map P_vobl P_inputs).
+Definition P_limit (T : Z * Z) (cs : list (Z * Z)) := C13_second_virial_limit_of_program P_prog T (1, -60)%Z cs PREC.
+Check P_limit.
 Definition P_order1 a e r Ha He := C01_directional_derivative P_prog P_n [0%nat] a e r Ha He P_scoped.
 Definition P_order2 a e r Ha He := C01_directional_derivative P_D1 (2 * P_n) [0%nat] a e r Ha He P_D1_scoped.
 "#;
@@ -166,8 +172,8 @@ pub fn run(out_dir: &str, tier: &str, seed: u64, only: Option<String>) -> Value 
         let do3 = ninstr <= lim3;
         // programs above this size are not enclosed in this tier (oracle only)
         let enclosed = ninstr <= if full { 6000 } else { 1500 };
-        let mut v = emit::header(&["ProgSem", "ProgSemBig", "AD"]);
-        v.push_str("From FeosProps Require Import C01.\n");
+        let mut v = emit::header(&["ProgSem", "ProgSemBig", "AD", "BoxBig", "VirialBox"]);
+        v.push_str("From FeosProps Require Import C01 C13.\n");
         v.push_str(&prog.emit_coq("P"));
         let rows: Vec<String> = ts
             .iter()
